@@ -132,6 +132,7 @@ class AsyncProtocol(Protocol, EventManager[PhysicalDevice]):
     consumers_count: int
     _network: NetworkInfo
     _queues: Queues
+    _entry_lock: asyncio.Lock
 
     def __init__(
         self,
@@ -147,6 +148,7 @@ class AsyncProtocol(Protocol, EventManager[PhysicalDevice]):
             wlan=wireless_parameters or WirelessParameters(status=False),
         )
         self._queues = Queues(read=asyncio.Queue(), write=asyncio.Queue())
+        self._entry_lock = asyncio.Lock()
 
     def connection_established(
         self, reader: asyncio.StreamReader, writer: asyncio.StreamWriter
@@ -233,12 +235,17 @@ class AsyncProtocol(Protocol, EventManager[PhysicalDevice]):
     async def get_device_entry(self, device_type: DeviceType) -> PhysicalDevice:
         """Set up or return a device entry."""
         name = device_type.name.lower()
-        if name not in self.data:
-            device = await PhysicalDevice.create(
-                device_type, queue=self._queues.write, network=self._network
-            )
-            device.dispatch_nowait(ATTR_CONNECTED, True)
-            self.create_task(device.async_setup(), name=f"device_setup_task ({name})")
-            await self.dispatch(name, device)
+        # Several consumers can receive frames from a new device at once;
+        # make sure that only one of them creates the device entry.
+        async with self._entry_lock:
+            if name not in self.data:
+                device = await PhysicalDevice.create(
+                    device_type, queue=self._queues.write, network=self._network
+                )
+                device.dispatch_nowait(ATTR_CONNECTED, True)
+                self.create_task(
+                    device.async_setup(), name=f"device_setup_task ({name})"
+                )
+                await self.dispatch(name, device)
 
         return self.data[name]
